@@ -74,7 +74,7 @@ def run_handshake(adv_c, adv_s, kex, inject=None, drop=None, timeout=6.0):
     for t in (sess.tc, sess.ts):
         t.get_security_options().kex = (kex,)
         t.handshake_timeout = timeout
-        t.auth_timeout = 1.5
+        t.auth_timeout = 0.7
         t.banner_timeout = timeout
     ok_c, ok_s = sess.start(timeout=timeout)
     app = {"auth": None, "echo": None}
@@ -82,8 +82,8 @@ def run_handshake(adv_c, adv_s, kex, inject=None, drop=None, timeout=6.0):
         try:
             sess.tc.auth_password("u", "pw")
             app["auth"] = bool(sess.tc.is_authenticated())
-            ch = sess.tc.open_session(timeout=1.5)
-            sch = sess.ts.accept(1.5)
+            ch = sess.tc.open_session(timeout=1.0)
+            sch = sess.ts.accept(1.0)
             ch.settimeout(1.5)
             sch.settimeout(1.5)
             ch.send(b"ping-from-client")
@@ -122,6 +122,78 @@ def run_handshake(adv_c, adv_s, kex, inject=None, drop=None, timeout=6.0):
             "seqs_all": [x[1] for x in ins][:40],
             "newkeys_idx": nk_in,
             "exc": type(t.get_exception()).__name__ if not t.is_active() else "",
+        }
+    sess.close()
+    return obs
+
+
+# ----------------------------------------------------------------------------- re-exchanges (C09)
+
+class MarkerOnceTransport(paramiko.Transport):
+    """a peer that advertises the strict-kex marker only in its FIRST KEXINIT (allowed by the extension; other
+    implementations behave like this) but of course keeps strict mode itself"""
+    def _send_kex_init(self):
+        if self.initial_kex_done:
+            self.advertise_strict_kex = False
+            try:
+                return super()._send_kex_init()
+            finally:
+                self.advertise_strict_kex = True
+        return super()._send_kex_init()
+
+
+def run_rekeys(marker_once_side, initiators, kex="curve25519-sha256@libssh.org", timeout=6.0):
+    """strict kex agreed in the initial handshake; then one re-exchange per entry of `initiators` ("c"/"s").
+    marker_once_side in {"c", "s", "none"}: which end stops repeating the marker. Returns per-end observations."""
+    link = ns.Link()
+    tc_cls = MarkerOnceTransport if marker_once_side == "c" else paramiko.Transport
+    sess = ns.Session(link=link, packetizer_class=HashTap, transport_cls=tc_cls)
+    if marker_once_side == "s":
+        # Session builds the server with paramiko.Transport: swap the class of the instance before it starts
+        sess.ts.__class__ = MarkerOnceTransport
+    for t in (sess.tc, sess.ts):
+        t.get_security_options().kex = (kex,)
+        t.auth_timeout = 2.0
+    ok = sess.start(timeout=timeout)
+    if ok != (True, True):
+        raise RuntimeError("initial handshake failed: %r" % (sess.errors,))
+    sess.auth()
+    ch, sch = sess.open_session()
+    ch.settimeout(3.0)
+    sch.settimeout(3.0)
+    rekeys = []
+    for who in initiators:
+        t = sess.tc if who == "c" else sess.ts
+        rec = {"initiator": who, "ok": False, "exc": ""}
+        try:
+            t.renegotiate_keys()
+            rec["ok"] = True
+        except Exception as e:
+            rec["exc"] = type(e).__name__
+        echo = False
+        try:
+            ch.send(b"ping")
+            echo = sch.recv(4) == b"ping"
+            sch.send(b"pong")
+            echo = echo and ch.recv(4) == b"pong"
+        except Exception as e:
+            rec["exc"] = rec["exc"] or type(e).__name__
+        rec["echo"] = echo
+        rekeys.append(rec)
+        if not (sess.tc.is_active() and sess.ts.is_active()):
+            break
+    time.sleep(0.01)
+    obs = {"marker_once": marker_once_side, "kex": kex, "rekeys": rekeys, "ends": {}}
+    for name, t in (("c", sess.tc), ("s", sess.ts)):
+        p = t.packetizer
+        ins, outs = list(p.in_ids), list(p.out_ids)
+        nk_in = [i for i, x in enumerate(ins) if x[0] == 21]
+        nk_out = [i for i, x in enumerate(outs) if x[0] == 21]
+        obs["ends"][name] = {
+            "active": bool(t.is_active()), "agreed": bool(t.agreed_on_strict_kex),
+            "in_seq_after_newkeys": [ins[i + 1][1] if len(ins) > i + 1 else -1 for i in nk_in],
+            "out_seq_after_newkeys": [outs[i + 1][1] if len(outs) > i + 1 else -1 for i in nk_out],
+            "newkeys_in": len(nk_in), "newkeys_out": len(nk_out),
         }
     sess.close()
     return obs
